@@ -7,7 +7,7 @@
 (* depend on those choices.                                                  *)
 EXTENDS Linker, TLC
 
-CONSTANT Free
+CONSTANTS Free, Announce
 
 MCInit == /\ job \in 1..Len(Jobs)
           /\ ph = "start" /\ nxt = 0 /\ sub = NoSub /\ dst = StartDst /\ placed = <<>> /\ cur = NoCur /\ fail = ""
@@ -21,28 +21,43 @@ AlignOptions(o) == {a \in [1..Len(inp[o].secs) -> {1, 2, 4, 8}] :
                           LegalAlign(IF i = 0 THEN 0 ELSE dst.secs[i].align, inp[o].secs[k].align, a[k])}
 FreeInject(o) == \E p \in PadChoices(o), a \in AlignOptions(o) : InjectSections(o, MkT(p), MkT(a))
 
-\* (the object / relocation index is the state's nxt: no quantifier, so that TLC reports the
-\* coverage of each action separately)
-RelocateFits     == nxt \in 1..Len(dst.rels) /\ dst.rels[nxt].type # "nofit" /\ Relocate(nxt)
-RelocateDoesNotFit == nxt \in 1..Len(dst.rels) /\ dst.rels[nxt].type = "nofit" /\ RelocateFails(nxt)
-InjectSecs == IF Free THEN FreeInject(nxt) ELSE InjectSections(nxt, DesignPads(nxt), DesignAligns(nxt))
+\* Action coverage.  TLC's -coverage slows this specification down by a factor of five, so each
+\* action announces itself instead (Announce = TRUE in a small universe that reaches all of them);
+\* the engine collects the names from TLC's output.
+Say(n) == ~Announce \/ PrintT(<<"act", n>>)
 Obj == ph = "inject" /\ nxt \in 1..Len(inp)
+InjectSecs == IF Free THEN FreeInject(nxt) ELSE InjectSections(nxt, DesignPads(nxt), DesignAligns(nxt))
 
-DoInjectSections  == Obj /\ InjectSecs
-DoInjectNew       == Obj /\ InjectNew(nxt)
-DoMergeGlobal     == Obj /\ MergeGlobal(nxt)
-DoDuplicateGlobal == Obj /\ DuplicateGlobal(nxt)
-DoInjectRelocs    == Obj /\ InjectRelocs(nxt)
-DoDuplicateEntry  == Obj /\ DuplicateEntry(nxt)
+DoStart            == Start /\ Say("Start")
+DoInjectSections   == Obj /\ InjectSecs /\ Say("InjectSections")
+DoInjectNew        == Obj /\ InjectNew(nxt) /\ Say("InjectNew")
+DoMergeGlobal      == Obj /\ MergeGlobal(nxt) /\ Say("MergeGlobal")
+DoDuplicateGlobal  == Obj /\ DuplicateGlobal(nxt) /\ Say("DuplicateGlobal")
+DoInjectRelocs     == Obj /\ InjectRelocs(nxt) /\ Say("InjectRelocs")
+DoDuplicateEntry   == Obj /\ DuplicateEntry(nxt) /\ Say("DuplicateEntry")
+DoPlaceSection     == (\E al \in (IF Free THEN {1, 2, 4} ELSE {DefaultAlign}) : PlaceSection(al)) /\ Say("PlaceSection")
+DoPlaceSectionData == PlaceSectionData(1) /\ Say("PlaceSectionData")
+DoDefineSymbol     == DefineSymbol(1) /\ Say("DefineSymbol")
+DoDefineSymbolTwice == DefineSymbolTwice /\ Say("DefineSymbolTwice")
+DoAlignTo          == AlignTo /\ Say("AlignTo")
+DoCloseMemory      == CloseMemory /\ Say("CloseMemory")
+DoMemoryOverflow   == MemoryOverflow /\ Say("MemoryOverflow")
+DoEmptyLayout      == EmptyLayout /\ Say("EmptyLayout")
+DoCheckUndefined   == CheckUndefined /\ Say("CheckUndefined")
+DoUndefinedFound   == UndefinedFound /\ Say("UndefinedFound")
+DoRelaxNone        == RelaxNone /\ Say("RelaxNone")
+\* "nofit" stands for a relocation whose value does not fit its field (decided by Reloc.tla in traces)
+DoRelocate         == nxt \in 1..Len(dst.rels) /\ dst.rels[nxt].type # "nofit" /\ Relocate(nxt) /\ Say("Relocate")
+DoRelocateFails    == nxt \in 1..Len(dst.rels) /\ dst.rels[nxt].type = "nofit" /\ RelocateFails(nxt)
+                      /\ Say("RelocateFails")
 
 MCWork ==
-    \/ Start
+    \/ DoStart
     \/ DoInjectSections \/ DoInjectNew \/ DoMergeGlobal \/ DoDuplicateGlobal \/ DoInjectRelocs \/ DoDuplicateEntry
-    \/ (\E al \in (IF Free THEN {1, 2, 4} ELSE {DefaultAlign}) : PlaceSection(al))
-    \/ PlaceSectionData(1) \/ DefineSymbol(1) \/ DefineSymbolTwice
-    \/ AlignTo \/ CloseMemory \/ MemoryOverflow \/ EmptyLayout
-    \/ CheckUndefined \/ UndefinedFound \/ RelaxNone
-    \/ RelocateFits \/ RelocateDoesNotFit
+    \/ DoPlaceSection \/ DoPlaceSectionData \/ DoDefineSymbol \/ DoDefineSymbolTwice
+    \/ DoAlignTo \/ DoCloseMemory \/ DoMemoryOverflow \/ DoEmptyLayout
+    \/ DoCheckUndefined \/ DoUndefinedFound \/ DoRelaxNone
+    \/ DoRelocate \/ DoRelocateFails
 MCNext == MCWork \/ Terminated
 
 \* every job ends: a state without successor other than the final stutter is finished
